@@ -2,6 +2,7 @@ package lossy
 
 import (
 	"encoding/binary"
+	"fmt"
 	"sync"
 
 	"github.com/deepteams/webp/internal/bitio"
@@ -38,6 +39,18 @@ func (enc *VP8Encoder) emitFrame() ([]byte, error) {
 	}
 	enc.stats.HeaderSize = 10 + len(part0) // frame tag + pic header + partition 0
 	enc.stats.Residuals = tokenSize
+
+	// The frame tag stores the size of partition 0 in 19 bits and the partition
+	// table stores every other size in 24 bits (libwebp: PARTITION0_OVERFLOW,
+	// PARTITION_OVERFLOW). A frame that does not fit cannot be written.
+	if len(part0) >= VP8MaxPartition0Size {
+		return nil, fmt.Errorf("lossy: mode partition of %d bytes exceeds the format's limit of %d (picture too large or too complex)", len(part0), VP8MaxPartition0Size-1)
+	}
+	for i, tp := range tokenParts {
+		if i < len(tokenParts)-1 && len(tp) >= VP8MaxPartitionSize {
+			return nil, fmt.Errorf("lossy: token partition %d of %d bytes exceeds the format's limit of %d", i, len(tp), VP8MaxPartitionSize-1)
+		}
+	}
 
 	// Frame tag (3 bytes) + picture header (7 bytes for keyframe).
 	return enc.assembleFrame(part0, tokenParts), nil
